@@ -38,6 +38,14 @@ theorem stamped_with_definition_and_call (d : CDef) (c : SFrame) (r : CallRes) :
     ∀ o ∈ callOutputs d c r, metaGet o.mdata "command_id" = some (idText d.id) ∧
       metaGet o.mdata "frame_id" = some (idText c.id) := callOutputs_stamped d c r
 
+/-- concurrent calls do not mix their results' stamps: however the frames of two calls
+    interleave in the stream, selecting by `frame_id` gives back each call's frames, complete and
+    in order -/
+theorem concurrent_calls_do_not_mix (d1 d2 : CDef) (c1 c2 : SFrame) (r1 r2 : CallRes) (m : List SFrame)
+    (hne : c1.id ≠ c2.id) (h : Xs.Interleave (callOutputs d1 c1 r1) (callOutputs d2 c2 r2) m) :
+    m.filter (fun o => metaGet o.mdata "frame_id" = some (idText c1.id)) = callOutputs d1 c1 r1 :=
+  concurrent_calls_separate d1 d2 c1 c2 r1 r2 m hne h
+
 /-- a live call runs the definition in force under (caller's context, name); what it produces
     is determined by that definition and the call frame - no other call, no earlier state -/
 theorem call_runs_definition_in_force (t : List CEntry) (f : SFrame) (name : String) (d : CDef)
